@@ -20,6 +20,7 @@ def dispatch (cmd : String) (args : List String) : String :=
     | "C07" :: rest => orcC07 rest
     | "C08" :: rest => orcC08 rest
     | "C06" :: rest => orcC06 rest
+    | "C10" :: rest => orcC10 rest
     | _ => "BADORC")
   | _ => "BADCMD"
 
